@@ -208,7 +208,10 @@ Fixpoint tbin (r : tail) (m : nat) : binop :=
   end.
 
 Fixpoint sem_operand (x : operand) : Arith.expr :=
-  match x with Num t => Lit (num_val t) | Pct t _ _ => Lit (num_val t / (100 # 1))%Q | Paren _ _ _ e _ => sem_expr e end
+  match x with
+  | Num t => Lit (num_val t) | Pct t _ _ => Lit (num_val t / (100 # 1))%Q | Paren _ _ _ e _ => sem_expr e
+  | Call _ _ _ _ => Lit 0%Q          (* function calls are not numeric expressions: excluded by [readable_operand] *)
+  end
 with sem_expr (e : expr) : Arith.expr :=
   match e with
   | Chain x r =>
@@ -224,7 +227,7 @@ with tsem (r : tail) (m : nat) {struct r} : Arith.expr :=
   end.
 
 Fixpoint readable_operand (x : operand) : Prop :=
-  match x with Num t | Pct t _ _ => num_readable t | Paren _ _ _ e _ => readable_expr e end
+  match x with Num t | Pct t _ _ => num_readable t | Paren _ _ _ e _ => readable_expr e | Call _ _ _ _ => False end
 with readable_expr (e : expr) : Prop := match e with Chain x r => readable_operand x /\ readable_tail r end
 with readable_tail (r : tail) : Prop :=
   match r with TNil => True | TCons _ _ _ _ x r' => readable_operand x /\ readable_tail r' | TTo _ _ _ _ _ => False end.   (* no casts: they are not numeric expressions *)
@@ -240,9 +243,10 @@ Lemma all_shapes :
   (forall e, readable_expr e -> forall w, exists t, nodes_of (trees_expr w e) = [t] /\ shape0 t (sem_expr e)) /\
   (forall r, readable_tail r ->
      (forall m, m < length (prios r) -> exists t, nodes_of (tbody r m) = [t] /\ shape0 t (tsem r m)) /\
-     (forall m, m < length (prios r) -> exists k ch, nodes_of (tglue r m) = [Grammar.Node k ch] /\ binop_kind (tbin r m) k)).
+     (forall m, m < length (prios r) -> exists k ch, nodes_of (tglue r m) = [Grammar.Node k ch] /\ binop_kind (tbin r m) k)) /\
+  (forall a : args, True) /\ (forall m : more, True).
 Proof.
-  apply syntax_mut.
+  apply syntax_mut; try (intros; exact I).
   - intros t Hr w. cbn [trees_operand sem_operand]. rewrite nodes_of_app, nodes_of_wsT. cbn.
     eexists. split; [reflexivity|]. apply S0_num. apply num_lit_ok. exact Hr.
   - intros t wp pt Hr w. cbn [trees_operand sem_operand]. rewrite nodes_of_app, nodes_of_wsT. cbn.
@@ -251,6 +255,7 @@ Proof.
     exists t. split; [|exact St]. cbn [trees_operand sem_operand].
     rewrite nodes_of_app, nodes_of_wsT. cbn [app]. unfold nodes_of at 1. cbn [filter is_node]. fold (nodes_of (trees_expr w1 e ++ wsT w2 ++ [Tok CLOSE_PAREN pc])).
     rewrite !nodes_of_app, nodes_of_wsT, Nt. reflexivity.
+  - intros name po pc a _ Hr. destruct Hr.
   - intros x IHx r IHr [Hx Hr] w. cbn [trees_expr sem_expr]. rewrite canon_is_climb.
     destruct (IHr Hr) as [Hb Hg].
     apply ritems_shape with (bound := length (prios r)).
@@ -270,7 +275,8 @@ Proof.
 Qed.
 
 Lemma readable_wf :
-  (forall x, readable_operand x -> wf_operand x) /\ (forall e, readable_expr e -> wf_expr e) /\ (forall r, readable_tail r -> wf_tail r).
+  (forall x, readable_operand x -> wf_operand x) /\ (forall e, readable_expr e -> wf_expr e) /\ (forall r, readable_tail r -> wf_tail r) /\
+  (forall a : args, True) /\ (forall m : more, True).
 Proof.
   apply syntax_mut; cbn [readable_operand readable_expr readable_tail wf_operand wf_expr wf_tail]; tauto.
 Qed.
